@@ -38,7 +38,8 @@ Inductive expr :=
 | ECond (c a b : expr)
 | ECall (m : N) (args : list expr)
 | ECaller
-| ESuper.                                  (* super() *)
+| ESuper                                   (* super() *)
+| EJoin (sep : expr) (items : list expr).   (* ([items])|join(sep) *)
 
 Inductive aexp := AConst (b : bool) | AFlag.
 
@@ -106,6 +107,14 @@ Definition apply_filter (rt : bool) (f : filt) (v : tstr) (args : list tstr) : o
       else Some (Plain (str_replace (raw v) (raw old) (raw new)))
   | _, _ => None
   end.
+
+(* sync_do_join(eval_ctx, [items], sep): without autoescape str.join of the str()s; with it, if the
+   separator or ANY item is Markup the result is Markup(escape(sep)).join(items) (every plain item
+   escaped), else a plain str.join *)
+Definition join_val (rt : bool) (sep : tstr) (items : list tstr) : tstr :=
+  if rt && (is_mk sep || existsb is_mk items)
+  then Mk (join_str (esc_str sep) (map esc_str items))
+  else Plain (join_str (raw sep) (map raw items)).
 
 Definition out_piece (on : bool) (v : tstr) : str := if on then esc_str v else raw v.
 Definition wrap (on : bool) (o : str) : tstr := if on then Mk o else Plain o.
@@ -179,6 +188,11 @@ Section Eval.
               end
           | _ => None
           end
+      | EJoin sep items =>
+          match eval_es n' ce rt mu k sup r items with None => None | Some vs =>
+          match eval_e n' ce rt mu k sup r sep with None => None | Some vsep =>
+            Some (join_val rt vsep vs)
+          end end
       end
     end
   with eval_es (n : nat) (ce : cexp) (rt : bool) (mu : menv) (k : option callerclo) (sup : option bstack)
@@ -356,6 +370,7 @@ Section Preds.
     | ECall _ args => forallb ok_e args
     | ECaller => true
     | ESuper => true
+    | EJoin sep items => ok_e sep && forallb ok_e items
     end.
 
   Fixpoint ok_s (s : stmt) : bool :=
